@@ -1,4 +1,4 @@
-(* Bitmaps (binlog_event.go Bitmap) against the master's bit packing (pack_bits),
+(* Bitmaps (binlog_event.go Bitmap) against the master's bit packing (pack_bits / pack_bits_pad: any padding pattern),
    length-encoded integers and per-type table-map metadata.  Shared by C09 and C15. *)
 From GB Require Import Base.Prelude Base.BytesLemmas Model.Header Model.Events Model.Cell Model.Rbr.
 From GB Require Import Spec.Values Spec.EncEvent Spec.Expect Proofs.CellCommon.
@@ -119,10 +119,101 @@ Proof.
   unfold is_byte. lia.
 Qed.
 
-(* ---------- Bitmap.Bit ---------- *)
-Theorem bitmap_bit_ok bits i : (i < length bits)%nat -> bit (expect_bitmap bits) i = Ok (nth i bits false).
+(* ---------- pack_bits_pad: the padding bits of the last byte ---------- *)
+Lemma pad_tail_length pad n : length (pad_tail pad n) = ((8 - n mod 8) mod 8)%nat.
 Proof.
-  intros Hi. unfold bit, expect_bitmap. cbn [bm_data].
+  unfold pad_tail. pose proof (Nat.mod_upper_bound n 8 ltac:(lia)) as U.
+  destruct (n mod 8)%nat as [|k] eqn:E; [reflexivity|].
+  rewrite map_length, seq_length. symmetry. apply Nat.mod_small. lia.
+Qed.
+
+(* bits and padding together fill whole bytes *)
+Lemma padded_length pad bits :
+  length (bits ++ pad_tail pad (length bits)) = (8 * ((length bits + 7) / 8))%nat.
+Proof. rewrite app_length, pad_tail_length. lia. Qed.
+
+(* the padding does not change the number of bytes *)
+Lemma pack_bits_pad_length pad bits : length (pack_bits_pad pad bits) = ((length bits + 7) / 8)%nat.
+Proof. unfold pack_bits_pad. rewrite pack_bits_length, padded_length. lia. Qed.
+
+Lemma pack_bits_pad_wf pad bits : wf_bytes (pack_bits_pad pad bits).
+Proof. apply pack_bits_wf. Qed.
+
+Lemma pad_tail_nth pad n k : (k < length (pad_tail pad n))%nat ->
+  nth k (pad_tail pad n) false = Z.testbit pad (Z.of_nat (n mod 8 + k)).
+Proof.
+  rewrite pad_tail_length. unfold pad_tail. pose proof (Nat.mod_upper_bound n 8 ltac:(lia)) as U.
+  destruct (n mod 8)%nat as [|m] eqn:E; [cbn; lia|]. intros Hk.
+  rewrite Nat.mod_small in Hk by lia.
+  rewrite (nth_indep _ false ((fun i => Z.testbit pad (Z.of_nat i)) 0%nat)) by (rewrite map_length, seq_length; lia).
+  rewrite (map_nth (fun i => Z.testbit pad (Z.of_nat i))). rewrite seq_nth by lia. reflexivity.
+Qed.
+
+(* pad 0 is the plain packing *)
+Lemma map_const_seq {A} (x : A) : forall k a, map (fun _ => x) (seq a k) = repeat x k.
+Proof. induction k as [|k IH]; intros a; [reflexivity|]. cbn [seq map repeat]. rewrite IH. reflexivity. Qed.
+
+Lemma pad_tail_0 n : pad_tail 0 n = repeat false ((8 - n mod 8) mod 8).
+Proof.
+  unfold pad_tail. pose proof (Nat.mod_upper_bound n 8 ltac:(lia)) as U.
+  destruct (n mod 8)%nat as [|k] eqn:E; [reflexivity|].
+  rewrite Nat.mod_small by lia.
+  erewrite map_ext; [apply map_const_seq|]. intros i. apply Z.testbit_0_l.
+Qed.
+
+Lemma bval_app_false l k : bval (l ++ repeat false k) = bval l.
+Proof.
+  induction l as [|b l IH]; cbn [app bval].
+  - induction k as [|k IHk]; [reflexivity|]. cbn [repeat bval Z.b2z]. lia.
+  - rewrite IH. reflexivity.
+Qed.
+
+Lemma pack_bits_fuel_nil fuel : pack_bits_fuel fuel [] = [].
+Proof. destruct fuel; reflexivity. Qed.
+
+Lemma pack_bits_fuel_false fuel : forall bits fuel' k, (length bits <= fuel)%nat -> (length bits + k <= fuel')%nat ->
+  k = ((8 - length bits mod 8) mod 8)%nat ->
+  pack_bits_fuel fuel' (bits ++ repeat false k) = pack_bits_fuel fuel bits.
+Proof.
+  induction fuel as [|f IH]; intros bits fuel' k H H' Hk.
+  - destruct bits; [|cbn [length] in H; lia]. cbn [length] in Hk. cbn in Hk. subst k.
+    cbn [app repeat]. apply pack_bits_fuel_nil.
+  - destruct bits as [|b r].
+    + cbn [length] in Hk. cbn in Hk. subst k. cbn [app repeat]. apply pack_bits_fuel_nil.
+    + destruct fuel' as [|f']; [cbn [length] in H'; lia|].
+      change ((b :: r) ++ repeat false k) with (b :: (r ++ repeat false k)).
+      rewrite !pack_bits_fuel_cons.
+      change (b :: (r ++ repeat false k)) with ((b :: r) ++ repeat false k).
+      destruct (Nat.le_gt_cases 8 (length (b :: r))) as [L|L].
+      * rewrite firstn_app, skipn_app.
+        replace (8 - length (b :: r))%nat with 0%nat by lia. rewrite firstn_O, skipn_O, app_nil_r.
+        f_equal. apply IH.
+        -- rewrite skipn_length. cbn [length] in *. lia.
+        -- rewrite skipn_length. cbn [length] in *. lia.
+        -- rewrite skipn_length. rewrite Hk. f_equal. f_equal.
+           replace (length (b :: r)) with (length (b :: r) - 8 + 1 * 8)%nat at 1 by lia.
+           apply Nat.mod_add. lia.
+      * assert (K : (length (b :: r) + k = 8)%nat).
+        { rewrite Hk. rewrite (Nat.mod_small (length (b :: r))) by lia. rewrite Nat.mod_small; cbn [length] in *; lia. }
+        rewrite (firstn_all2 (n := 8) ((b :: r) ++ repeat false k)) by (rewrite app_length, repeat_length; lia).
+        rewrite (firstn_all2 (n := 8) (b :: r)) by lia.
+        rewrite (skipn_all2 (n := 8) ((b :: r) ++ repeat false k)) by (rewrite app_length, repeat_length; lia).
+        rewrite (skipn_all2 (n := 8) (b :: r)) by lia.
+        rewrite !pack_bits_fuel_nil, bval_app_false. reflexivity.
+Qed.
+
+Lemma pack_bits_pad_0 bits : pack_bits_pad 0 bits = pack_bits bits.
+Proof.
+  unfold pack_bits_pad, pack_bits. rewrite pad_tail_0.
+  apply pack_bits_fuel_false; [lia|rewrite app_length, repeat_length; lia|reflexivity].
+Qed.
+
+(* ---------- Bitmap.Bit ---------- *)
+(* Bit looks at the data bytes only *)
+Lemma bit_data_ok l n i : (i < length l)%nat ->
+  bit {| bm_data := pack_bits l; bm_count := n |} i = Ok (nth i l false).
+Proof.
+  intros Hi. unfold bit. cbn [bm_data].
   unfold at_, pack_bits. rewrite pack_bits_fuel_nth; [|lia|].
   2:{ pose proof (Nat.div_mod i 8). pose proof (Nat.mod_upper_bound i 8). lia. }
   cbn [bind]. f_equal.
@@ -131,11 +222,31 @@ Proof.
   rewrite nth_skipn_add. f_equal. pose proof (Nat.div_mod i 8). lia.
 Qed.
 
+(* every meaningful bit is the bit the master packed, whatever the padding pattern *)
+Theorem bitmap_bit_ok pad bits i : (i < length bits)%nat -> bit (expect_bitmap pad bits) i = Ok (nth i bits false).
+Proof.
+  intros Hi. unfold expect_bitmap, pack_bits_pad.
+  rewrite bit_data_ok by (rewrite app_length; lia).
+  rewrite app_nth1 by exact Hi. reflexivity.
+Qed.
+
+(* and the unused bits of the last byte are those of the pattern (so the generalisation is not vacuous:
+   Bit at a padding position does see the pattern; BitCount below never asks for one) *)
+Theorem bitmap_bit_padding pad bits i : (length bits <= i < 8 * ((length bits + 7) / 8))%nat ->
+  bit (expect_bitmap pad bits) i = Ok (Z.testbit pad (Z.of_nat (i mod 8))).
+Proof.
+  intros Hi. unfold expect_bitmap, pack_bits_pad.
+  rewrite bit_data_ok by (rewrite padded_length; lia).
+  rewrite app_nth2 by lia.
+  rewrite pad_tail_nth by (rewrite pad_tail_length; lia).
+  do 3 f_equal. lia.
+Qed.
+
 (* ---------- Bitmap.BitCount ---------- *)
 Definition count_true (l : list bool) : nat := length (filter (fun b => b) l).
 
-Lemma bit_count_from_ok suf : forall pre acc,
-  bit_count_from (expect_bitmap (pre ++ suf)) (length pre) (length suf) acc = Ok (acc + count_true suf)%nat.
+Lemma bit_count_from_ok pad suf : forall pre acc,
+  bit_count_from (expect_bitmap pad (pre ++ suf)) (length pre) (length suf) acc = Ok (acc + count_true suf)%nat.
 Proof.
   induction suf as [|b suf IH]; intros pre acc.
   - cbn [length bit_count_from]. unfold count_true. cbn [filter length]. f_equal. lia.
@@ -146,18 +257,20 @@ Proof.
     rewrite IH. unfold count_true. cbn [filter]. destruct b; cbn [length]; f_equal; lia.
 Qed.
 
-Theorem bitmap_count_ok bits : bit_count (expect_bitmap bits) = Ok (count_true bits).
+(* BitCount is the number of true bits among the n meaningful ones: the padding bits of the last byte,
+   whatever they are, are not counted *)
+Theorem bitmap_count_ok pad bits : bit_count (expect_bitmap pad bits) = Ok (count_true bits).
 Proof.
-  unfold bit_count. change (bm_count (expect_bitmap bits)) with (length bits).
-  exact (bit_count_from_ok bits [] 0%nat).
+  unfold bit_count. change (bm_count (expect_bitmap pad bits)) with (length bits).
+  exact (bit_count_from_ok pad bits [] 0%nat).
 Qed.
 
 (* ---------- newBitmap ---------- *)
-Theorem new_bitmap_ok pre bits rest :
-  new_bitmap (pre ++ pack_bits bits ++ rest) (length pre) (length bits)
-    = Ok (expect_bitmap bits, (length pre + (length bits + 7) / 8)%nat).
+Theorem new_bitmap_ok pad pre bits rest :
+  new_bitmap (pre ++ pack_bits_pad pad bits ++ rest) (length pre) (length bits)
+    = Ok (expect_bitmap pad bits, (length pre + (length bits + 7) / 8)%nat).
 Proof.
-  unfold new_bitmap. rewrite slice_app_mid by (rewrite pack_bits_length; reflexivity).
+  unfold new_bitmap. rewrite slice_app_mid by (rewrite pack_bits_pad_length; reflexivity).
   reflexivity.
 Qed.
 
